@@ -216,6 +216,14 @@ pub fn f6_ptr() -> Vec<SemCase> {
         "p = arr; r = gp(p);",
         "p = arr; r = gp(p) + 1; c = *p;",
         "p = arr; p++; r = gp(p);",
+        "p = arr; r = p[2] + X; c = Y;",
+        "p = arr; r = X + p[2]; c = Y;",
+        "p = arr; r = p[2] + Y; c = Y;",
+        "p = arr; r = (p[2] & 1) + (a & 2); c = Y;",
+        "p = arr; r = p[1] - X; c = Y;",
+        "p = arr; r = p[2]; c = Y;",
+        "p = arr; if (p[2] == X) r = 1; else r = 2; c = Y;",
+        "p = arr; X = p[3]; c = Y;",
     ];
     let small: Vec<(&str, &[i32])> = vec![("Y", &[0, 1, 2, 3]), ("a", &[0, 1, 2, 0x80, 0xff]), ("b", &[0, 1, 0x7f, 0xff])];
     let extra = "char *q;\nvoid fp(char *v) { c = v[Y]; }\nchar gp(char *v) { return v[Y]; }\n";
@@ -242,6 +250,26 @@ pub fn f2_carry() -> Vec<SemCase> {
                 v.push(case_from_text("F2.carry", &main_with(D0_TEXT, &body), &small, vec!["carry"], 400));
             }
         }
+    }
+    v
+}
+
+/// sign extension: signed 8-bit objects (scalars, array elements indexed by X, Y, a constant) widened to 16 bits
+pub fn f1_sext() -> Vec<SemCase> {
+    let decl = "signed char sa[4]; signed char sb; unsigned char ub, r; short s, t; unsigned short u;\n";
+    let bodies = [
+        "s = sa[Y];", "s = sa[X];", "s = sa[1];", "s = sb;", "s = ub;", "u = sa[Y];", "u = sb;",
+        "s += sa[Y];", "s += sa[X];", "s += sb;", "s -= sa[Y];", "s -= sb;", "t = s + sa[X];", "t = s + sa[Y];", "t = s - sb;",
+        "s = sa[Y]; t = sa[X];", "s = sa[X]; t = sa[Y];", "s = sa[Y] + sb;", "s = sb + sa[X];",
+        "r = 0; if (sa[Y] < 0) r = 1;", "r = 0; if (sa[X] >= 0) r = 1;", "r = 0; if (sb < 0) r = 1; else r = 2;",
+        "s = -sb;", "s = sa[Y] << 1;", "s = sb >> 1;", "s = sb; s >>= 1;", "s = sa[X]; s <<= 2;",
+        "X = sa[Y]; s = X;", "sb = sa[Y]; s = sb;", "sa[X] = sb; s = sa[X];",
+    ];
+    let small: Vec<(&str, &[i32])> = vec![("X", &[0, 1, 2, 3]), ("Y", &[0, 1, 2, 3]), ("sb", &[0, 1, 0x7f, 0x80, 0xff]), ("ub", &[0, 0x7f, 0x80, 0xff]), ("s", &[0, 1, 0xff, 0x100, 0x8000, 0xffff]), ("t", &[0, 0x1234])];
+    let mut v = Vec::new();
+    for b in bodies {
+        let src = format!("{}void main()\n{{\n{}\n}}\n", decl, b);
+        v.push(case_from_text("F1.sext", &src, &small, vec!["sext"], 600));
     }
     v
 }
